@@ -570,3 +570,16 @@ Theorem C20_oras_tag_forms_agree :
     = oras_tag_requests avail vr plain breg brepo dg [d2] served.
 Proof. exact (fun avail vr plain breg brepo t dg d2 served H Hb Hp => oras_tag_forms_agree avail vr H plain breg brepo Hb Hp t dg d2 served). Qed.
 Print Assumptions C20_oras_tag_forms_agree.
+
+(* the hypotheses of the operation theorems are satisfiable together (with the complete validator) *)
+Example C20_operation_hypotheses_satisfiable :
+  go_registry (b "localhost:5000") = true /\ valid_repository (b "hello/world") = true /\
+  valid_digest (fun _ => true) (b "sha256:e3b0c44298fc1c149afbf4c8996fb92427ae41e4649b934ca495991b7852b855") = true /\
+  bytes (b "x y&z") /\ valid_repository (b "library/x") = true /\
+  new_repository (fun _ => true) go_registry (b "localhost:5000/hello/world:v1")
+  = Some (mkRef (b "localhost:5000") (b "hello/world") (b "v1")) /\
+  oras_tag_requests (fun _ => true) go_registry false (b "localhost:5000") (b "hello/world") (b "v1")
+    [b "localhost:5000/hello/world:v2"; b "ghcr.io/Org/app@sha256:00"; b "v3"] (b "sha256:00")
+  = [(b "GET", b "https://localhost:5000/v2/hello/world/manifests/v1");
+     (b "PUT", b "https://localhost:5000/v2/hello/world/manifests/v2")].
+Proof. repeat split; try (vm_compute; reflexivity). repeat constructor. Qed.
